@@ -12,25 +12,6 @@ open Scrapli Scrapli.Chan Scrapli.Netconf.Hello
 
 /-! ## the version decision -/
 
-/-- what the user asked for -/
-inductive Pref | none | p10 | p11
-  deriving DecidableEq, Repr
-
-/-- `PreferredVersion` as the option stores it -/
-def Pref.bytes : Pref → Bytes
-  | .none => []
-  | .p10 => Gen.Netconf.V1Dot0
-  | .p11 => Gen.Netconf.V1Dot1
-
-/-- The property's table, written from its statement: 1.1 exactly when the server advertises it
-and the user did not ask for 1.0; 1.0 when that is all the server offers, or it is what the user
-asked for and the server offers it; failure when neither base capability is advertised or the
-required one is missing. -/
-def specVersion (has10 has11 : Bool) : Pref → Option Ver
-  | .none => if has11 then some .v11 else if has10 then some .v10 else none
-  | .p10 => if has10 then some .v10 else none
-  | .p11 => if has11 then some .v11 else none
-
 /-- obligation on the regenerated constants: the two version strings differ from each other and
 from the unset preference, and the two base URIs differ -/
 theorem version_constants_distinct :
